@@ -16,8 +16,23 @@ and have opposite outward normals; ``fracture_faces`` tags mark exactly the coup
 domain volume; lower-dimensional cells tile exactly their fracture / intersection; every mortar side grid matches
 the lower-dimensional cells in number, centre and size.
 
-Detection power (scratch copy of /repo/src, POREPY_SRC=<copy>, quick tier; each run exited 1 with VIOLATION):
-  see the list at the end of this docstring (filled in after the mutation runs).
+Detection power (scratch copy of /repo/src, POREPY_SRC=<copy>, quick tier; every mutant run exited 1 with VIOLATION lines):
+  M1 split_grid.update_cell_connectivity: sign of the duplicated faces' cell_faces entries flipped (``-data``)
+       caught by "coupling: the two coupled faces have opposite outward normals"
+  M2 split_grid._duplicate_specific_faces: duplicated face centres copied from ``frac_id[::-1]``
+       caught by "coupling: coupled face and cell coincide in centre"
+  M3 split_grid._duplicate_specific_faces: ``tags["fracture_faces"][frac_id[rem]] = True`` dropped (tip faces ending on another
+       fracture no longer tagged)
+       caught by "tags: fracture_faces marks exactly the coupled faces" (T/L configurations only)
+  M4 structured._find_nodes_on_line: y-line stride ``nx[0] + 1`` -> ``nx[1] + 1``
+       caught by "fractures: cells lie on their fracture and tile it exactly", "lower-dimensional cells: measure ...", cart_grid raising
+  M5 meshing.create_interfaces: two-sided mortar chosen with ``num_sides > 0``
+       caught by "cart_grid: returns a mixed-dimensional grid for an admissible network" (MortarGrid rejects the map)
+  M6 mortar_grid._init_projections: side reordering ``order="F"`` -> ``order="C"``
+       caught by "mortar: cell (side, c) projects to cell c and one host face per side"
+
+Observation (not a violation): for non-dyadic cell sizes in 3-D the embedded 2-d fracture grids carry coordinate errors up
+to 5e-11 because structured._create_embedded_2d_grid rounds local coordinates to 1e-10; those cases use tolerance 1e-9.
 """
 from __future__ import annotations
 
